@@ -18,7 +18,11 @@ _KEYWORDS = {"if", "else", "elif", "for", "in", "is", "not", "and", "or", "retur
 
 @dataclass
 class Event:
-    kind: str       # BIND | READ | PARAM | ATTRBIND
+    kind: str       # BIND | READ | PARAM | ATTRBIND | STRHOLE (a name hole inside a string literal that is data) |
+                    # RAWCODE / RAWSTR (an opaque template value - `root` is its expression text - outside every string literal and
+                    # comment / inside a string literal that is data); the last three have hole=True and no name |
+                    # FMTKW (a name hole that is a keyword of `"...<opaque value>...".format(...)`: it names a field of a format
+                    # string that the generator prepared - `ref`)
     name: str       # fixed identifier, or affix pattern "prefix\x00suffix" for holes
     hole: bool
     line: int
@@ -26,6 +30,8 @@ class Event:
     site: str = ""
     root: str = ""
     pos: int = 0
+    inst: str = ""  # holes: the template loop rounds in which the hole was written (skeleton.Item.inst)
+    ref: str = ""   # FMTKW: the template expression(s) of the opaque value(s) inside the format string, joined by " | "
 
 
 @dataclass
@@ -48,11 +54,23 @@ class Scope:
 def strip_strings(line: str, state: str) -> tuple[str, str, list[str]]:
     """Blank out string/comment contents of one physical line (keeping f-string replacement fields);
     returns (code text, lexer state after the line, f-string expression texts)."""
+    code, st, fexprs, _spans, _fields = strip_spans(line, state)
+    return code, st, fexprs
+
+
+def strip_spans(line: str, state: str) -> tuple[str, str, list[str], list[tuple[int, int, int]], list[tuple[int, int]]]:
+    """strip_strings plus the string literals of the line: (start, end, column of the opening quote - or -1 when the literal was
+    opened on an earlier line) of the *content* of each, and the (start, end) of the replacement fields of f-strings within them
+    (code, not content: their texts are the fexprs).  The code text has the length of the line: column i of one is column i of
+    the other."""
     out: list[str] = []
     fexprs: list[str] = []
+    spans: list[tuple[int, int, int]] = []
+    fields: list[tuple[int, int]] = []
     i = 0
     n = len(line)
     st = state
+    cur: "list[int] | None" = [0, -1] if LX.is_string(state) else None  # [content start, opening column] of the literal being read
     while i < n:
         ch = line[i]
         if st == LX.CODE:
@@ -69,6 +87,7 @@ def strip_strings(line: str, state: str) -> tuple[str, str, list[str]]:
                 for k in range(len(pref)):
                     out[-1 - k] = " "
                 out.append(" " * len(q))
+                cur = [i + len(q), i - len(pref)]
                 i += len(q)
                 continue
             if ch == "#":
@@ -91,12 +110,16 @@ def strip_strings(line: str, state: str) -> tuple[str, str, list[str]]:
         if line[i:i + len(q)] == q:
             st = LX.CODE
             out.append(" " * len(q))
+            if cur is not None:
+                spans.append((cur[0], i, cur[1]))
+                cur = None
             i += len(q)
             continue
         if "f" in prefix and line[i] == "{" and line[i:i + 2] != "{{":
             j = line.find("}", i)
             if j > 0:
                 fexprs.append(line[i + 1:j])
+                fields.append((i, j + 1))
                 out.append(" " * (j - i + 1))
                 i = j + 1
                 continue
@@ -108,12 +131,17 @@ def strip_strings(line: str, state: str) -> tuple[str, str, list[str]]:
         i += 1
     if st == LX.COMMENT:
         st = LX.CODE
+    if cur is not None:
+        spans.append((cur[0], n, cur[1]))
     if LX.is_string(st) and len(LX.string_info(st)[1]) == 1:
         st = LX.CODE  # unterminated single-line string in the skeleton: resynchronise
-    return "".join(out), st, fexprs
+    return "".join(out), st, fexprs, spans, fields
 
 
-def scan_lines(lines: list[str], opaque: list[frozenset[str]], holes: list[tuple[str, str]], template: str) -> Scope:
+def scan_lines(lines: list[str], opaque: list[frozenset[str]], holes: "list[tuple]", template: str,
+               opaque_texts: "list[str] | None" = None) -> Scope:
+    """holes: (root, site[, rounds]) of each name hole; opaque_texts: the template expression behind each opaque value (when given,
+    RAWCODE events are recorded for the opaque values that stand in code)"""
     root = Scope(template, "module", -1, None)
     cur = root
     state = LX.CODE
@@ -128,25 +156,69 @@ def scan_lines(lines: list[str], opaque: list[frozenset[str]], holes: list[tuple
     ident_start = re.compile(rf"[^\W\d]|{HOLE}|{OPQ}", re.UNICODE)
     opq_only = re.compile(rf"{OPQ}(\d+){OPQ}")
 
-    def classify(tok: str) -> tuple[str, str, str, str]:
+    def rounds_of(i: int) -> str:
+        return holes[i][2] if len(holes[i]) > 2 else ""
+
+    def classify(tok: str) -> tuple[str, str, str, str, str]:
         if OPQ in tok:
-            return "ignore", tok, "", ""
+            return "ignore", tok, "", "", ""
         if HOLE in tok:
             idx = [int(x) for x in re.findall(rf"{HOLE}(\d+){HOLE}", tok)]
             parts = re.split(rf"{HOLE}\d+{HOLE}", tok)
             if len(idx) != 1:
-                return "ignore", tok, "", ""
-            return "hole", "\x00".join(parts), holes[idx[0]][1], holes[idx[0]][0]
-        return "fixed", tok, "", ""
+                return "ignore", tok, "", "", ""
+            return "hole", "\x00".join(parts), holes[idx[0]][1], holes[idx[0]][0], rounds_of(idx[0])
+        return "fixed", tok, "", "", ""
 
     def emit(kind: str, tok: str, sc: Scope, ln: int, raw: str, skip: "set[str] | frozenset[str]" = frozenset()) -> None:
-        cls_, nm, site, rt = classify(tok)
+        cls_, nm, site, rt, inst = classify(tok)
         if cls_ == "ignore":
             return
         if cls_ == "fixed" and (nm in _KEYWORDS or nm in skip):
             return
         pos[0] += 1
-        sc.events.append(Event(kind, nm, cls_ == "hole", ln, raw.strip()[:110], site, rt, pos[0]))
+        sc.events.append(Event(kind, nm, cls_ == "hole", ln, raw.strip()[:110], site, rt, pos[0], inst))
+
+    hole_at = re.compile(rf"{HOLE}(\d+){HOLE}")
+    opq_at = re.compile(rf"{OPQ}(\d+){OPQ}")
+    fmt_calls: list[tuple[int, str]] = []  # open `"...".format(` calls: (bracket depth inside the call, expressions in the format string)
+    stmt_head = [""]       # first word of the statement being read
+    reflective = re.compile(r"\b(getattr|setattr|hasattr|delattr)\s*\([^()]*$")
+    doc_literal = [False]  # the string literal that is open across lines stands where a statement starts (a docstring: no data)
+
+    def positions(raw: str, code: str, spans: list, fields: list, at_stmt_start: bool, sc: Scope, ln: int) -> None:
+        """Where the two spellings of a document name stand: a name hole inside the content of a string literal (not in a
+        replacement field of an f-string, not in a comment, not in a literal that stands alone as a statement) is a STRHOLE; an
+        opaque template value outside every literal and comment - or in a replacement field - is a RAWCODE."""
+        if at_stmt_start and code.strip():
+            m0 = re.match(r"[^\W\d]\w*", code.strip())
+            stmt_head[0] = m0.group(0) if m0 else ""
+        for a, b, opened in spans:
+            # no data: a literal that stands alone where a statement starts (documentation), the message of a raise / assert
+            # statement, the attribute name handed to getattr / setattr / hasattr / delattr (there the identifier is what is meant)
+            doc = doc_literal[0] if opened < 0 else ((at_stmt_start and not raw[:opened].strip()) or stmt_head[0] in ("raise", "assert")
+                                                     or bool(reflective.search(code[:opened])))
+            doc_literal[0] = doc
+            if doc:
+                continue
+            for m in hole_at.finditer(raw, a, b):
+                if any(fa <= m.start() < fb for fa, fb in fields):
+                    continue
+                i = int(m.group(1))
+                pos[0] += 1
+                sc.events.append(Event("STRHOLE", "\x00", True, ln, raw.strip()[:110], holes[i][1], holes[i][0], pos[0], rounds_of(i)))
+            if opaque_texts is not None:
+                for m in opq_at.finditer(raw, a, b):
+                    if not any(fa <= m.start() < fb for fa, fb in fields):
+                        pos[0] += 1
+                        sc.events.append(Event("RAWSTR", "", True, ln, raw.strip()[:110], "", opaque_texts[int(m.group(1))], pos[0]))
+        if opaque_texts is None:
+            return
+        for m in opq_at.finditer(raw):
+            in_code = code[m.start():m.end()] == m.group(0) or any(fa <= m.start() < fb for fa, fb in fields)
+            if in_code:
+                pos[0] += 1
+                sc.events.append(Event("RAWCODE", "", True, ln, raw.strip()[:110], "", opaque_texts[int(m.group(1))], pos[0]))
 
     def emit_opaque(tok: str, sc: Scope, ln: int, raw: str) -> None:
         m = opq_only.fullmatch(tok)
@@ -173,8 +245,9 @@ def scan_lines(lines: list[str], opaque: list[frozenset[str]], holes: list[tuple
                 depth, state, in_def_sig, cur, seg_start = before_alternatives
         elif ln in held:
             before_alternatives = (depth, state, in_def_sig, cur, seg_start)
-        code, state, fexprs = strip_strings(raw, state)
+        code, state, fexprs, spans, fields = strip_spans(raw, state)
         if not code.strip() and not fexprs:
+            positions(raw, code, spans, fields, depth == 0 and in_def_sig is None, cur, ln)
             continue
         indent = len(code) - len(code.lstrip(" "))
         if depth == 0 and in_def_sig is None and code.strip():
@@ -182,7 +255,9 @@ def scan_lines(lines: list[str], opaque: list[frozenset[str]], holes: list[tuple
                 flush()
             while cur is not root and indent <= cur.indent:
                 cur = cur.parent  # type: ignore[assignment]
+        positions(raw, code, spans, fields, depth == 0 and in_def_sig is None, in_def_sig or cur, ln)
         toks = [m.group(0) for m in tok_re.finditer(code)]
+        tpos = [m.start() for m in tok_re.finditer(code)]
         stmt_start = depth == 0 and in_def_sig is None
         first_tok = toks[0] if toks else ""
         line_comp: set[str] = set()
@@ -199,7 +274,7 @@ def scan_lines(lines: list[str], opaque: list[frozenset[str]], holes: list[tuple
             k0 = 2 if first_tok == "async" else 1
             if k0 < len(toks):
                 emit("BIND", toks[k0], cur, ln, raw)
-                cls_, nm, _s, _r = classify(toks[k0])
+                cls_, nm, _s, _r, _i = classify(toks[k0])
                 label = nm.replace("\x00", "<H>") if cls_ != "ignore" else "<class>"
                 kind_ = "class" if first_tok == "class" else "function"
                 last = cur.children[-1] if cur.children else None
@@ -288,12 +363,33 @@ def scan_lines(lines: list[str], opaque: list[frozenset[str]], holes: list[tuple
                 for j, tk in enumerate(toks):
                     if tk == "as" and j + 1 < len(toks):
                         bind_idx.add(j + 1)
+        # `"...<opaque value>...".format(`: the literal is a format string that the generator prepared; the keywords name its fields
+        fmt_open: dict[int, str] = {}
+        if opaque_texts is not None:
+            for j in range(len(toks) - 2):
+                if toks[j] == "." and toks[j + 1] == "format" and toks[j + 2] == "(":
+                    end = len(raw[:tpos[j]].rstrip())  # where the closing quote of a literal would end
+                    for a, b, _opened in spans:
+                        if end - b in (1, 3) and raw[b:end] in ('"', "'", '"""', "'''"):
+                            texts = [opaque_texts[int(m.group(1))] for m in opq_at.finditer(raw, a, b)
+                                     if not any(fa <= m.start() < fb for fa, fb in fields)]
+                            if texts:
+                                fmt_open[j + 2] = " | ".join(texts)
         prev = ""
         for j, tk in enumerate(toks):
             if tk in ("(", "[", "{"):
                 depth += 1
+                if j in fmt_open:
+                    fmt_calls.append((depth, fmt_open[j]))
             elif tk in (")", "]", "}"):
                 depth = max(0, depth - 1)
+                while fmt_calls and depth < fmt_calls[-1][0]:
+                    fmt_calls.pop()
+            if fmt_calls and depth == fmt_calls[-1][0] and HOLE in tk and j + 1 < len(toks) and toks[j + 1] == "=":
+                cls_, nm, site, rt, inst = classify(tk)
+                if cls_ == "hole":
+                    pos[0] += 1
+                    sc.events.append(Event("FMTKW", nm, True, ln, raw.strip()[:110], site, rt, pos[0], inst, fmt_calls[-1][1]))
             if opq_only.fullmatch(tk):
                 emit_opaque(tk, sc, ln, raw)
             elif ident_start.match(tk):
